@@ -111,6 +111,9 @@ class IterModel:
                 raise Unresolved('iterator adapter %s changes the length' % name)
             if any(name.endswith(sfx) for sfx in ITER_ADAPTERS) and t[2]:
                 return self.length(t[2][0])
+            if name.endswith('RangeInclusive::<Idx>::new') and len(t[2]) == 2:
+                # a ..= b yields b - a + 1 items (for a <= b + 1; the callers only use it for counters that start at 0)
+                return sym.mk_bin('Add', sym.mk_bin('Sub', t[2][1], t[2][0]), sym.mk_int(1))
             raise Unresolved('unknown iterator source ' + name)
         if t[0] == 'agg' and isinstance(t[1], tuple) and t[1][0] == 'adt' and t[1][1] in ('core::ops::Range', 'core::ops::range::Range'):
             a, b = t[2][0], t[2][1]
